@@ -118,6 +118,9 @@ T = [
     ["v = [(lambda: $E), (lambda: $E)]"],
     ["def fe(p):", '    ""', "    $B", '    return ("", $E)'],
     ["def fp(p, /, q=$E, *, k):", "    loc = 1", "    $B", "    return (q, loc, k)"],
+    # dead code after the last live instruction on a later line: <=3.9 keep a line-table
+    # entry at len(co_code) while every table stays in first-use order
+    ["def ge():", "    return", "    yield"],
     # a class body that reads __class__ as a free variable while one of its methods
     # makes it a cell of the body: the same name in co_cellvars and co_freevars
     ["class CC:", "    def m(self):", "        class DD(CC):", "            y = __class__", "            def n(self):", "                $B", "                return super().n()", "        return DD"],
@@ -311,8 +314,29 @@ def prog_Q():
                 yield {"k": "src", "s": "Q", "src": "def f():\n    return %s\ndef g():\n    return %s\n" % (a, b), "mode": "exec", "opt": 0}
 
 
+    # different sibling code objects on one line whose constants have colliding hashes
+    for a, b in HASH_COLLIDING:
+        for x, y in ((a, b), (b, a)):
+            yield {"k": "src", "s": "Q", "src": "v = [lambda: %s, lambda: %s]\n" % (x, y), "mode": "exec", "opt": 0}
+            yield {"k": "src", "s": "Q", "src": "def h():\n    'doc'\n    return [lambda: %s, lambda: %s]\n" % (x, y), "mode": "exec", "opt": 0}
+
+
+HASH_COLLIDING = [("-1", "-2"), ("0", "2305843009213693951"), ("1", "2305843009213693952"), ("0.0", "0")]
+
+
 def n_prog_Q():
-    return sum(len(g) + 2 * len(g) * (len(g) - 1) for g in EQ_GROUPS)
+    return sum(len(g) + 2 * len(g) * (len(g) - 1) for g in EQ_GROUPS) + 4 * len(HASH_COLLIDING)
+
+
+def prog_P1():
+    """Every statement template with default holes in every context."""
+    for t in T:
+        for k in KNAMES:
+            yield {"k": "src", "s": "P1", "src": in_context(k, render(t)), "mode": "exec", "opt": 0}
+
+
+def n_prog_P1():
+    return len(T) * len(K)
 
 
 # ---------------------------------------------------------------- eval/single programs
